@@ -7,6 +7,7 @@ import (
 	"io"
 	"regexp"
 	"sort"
+	"strconv"
 	"strings"
 
 	yaml "gopkg.in/yaml.v3"
@@ -34,6 +35,23 @@ func (C10) Describe() CheckInfo {
 func (C10) Generate(c *Ctx, r *Rand, index int) *Scenario {
 	sc := &Scenario{Kind: "proc", Meta: map[string]any{}}
 	rs := r.Fork("shape")
+	if rs.Chance(1, 1500) {
+		// a stream long enough to wrap any 16-bit counter: document k holds `n: k`
+		n := 65536 + rs.Range(2, 40)
+		var b strings.Builder
+		for k := 0; k < n; k++ {
+			if k > 0 {
+				b.WriteString("---\n")
+			}
+			b.WriteString("n: " + strconv.Itoa(k) + "\n")
+		}
+		expr := Pick(rs, []string{"[.n, document_index]", "select(document_index == 3) | .n", "select(.n != document_index) | .n"})
+		sc.Files = []File{{Name: "long.yaml", Data: Bytes(b.String()), Mode: 0644}}
+		sc.Argv = []string{"-o=json", "-I0", expr, "long.yaml"}
+		sc.Meta = map[string]any{"variant": "longstream", "expr": expr, "expr_raw": expr, "family": "longstream", "format": "yaml", "docs": n, "freeze_data": true, "keep_flags": []any{"-o=json", "-I0"}}
+		sc.WatchdogS = 60
+		return sc
+	}
 	variant := rs.Weighted([]int{60, 12, 14, 10, 6})
 	if variant == 4 {
 		// split output: the files of the combined run are the files of the per-document runs
@@ -90,9 +108,36 @@ func (C10) Generate(c *Ctx, r *Rand, index int) *Scenario {
 			{S: ". as $d | load(\"tpl.yaml\") | .labels.id = $d.id | .n += 1", Family: "load-update"},
 			{S: "load(\"tpl.yaml\") * .", Family: "load-update"},
 			{S: ".a as $a | load(\"tpl.yaml\") | .n |= . + $a", Family: "load-update"},
+			// a loaded (parentless) tree assigned into the document, then results taken from inside it
+			{S: ".tpl = load(\"tpl.yaml\") | .tpl.labels", Family: "load-update"},
+			{S: ".tpl = load(\"tpl.yaml\") | .tpl.owners[0]", Family: "load-update"},
+			{S: ".tpl = load(\"tpl.yaml\") | .tpl.labels | [.app, @DI@, @FI@]", Family: "load-update"},
+			{S: ".tpl = load(\"tpl.yaml\") | .tpl | (.n, .labels.app)", Family: "load-update"},
+			{S: ".tpl = load(\"tpl.yaml\") | (.tpl.labels | filename)", Family: "load-update"},
 		})
 		e.Alts = []string{"."}
 		sc.Meta["extra_file"] = "tpl.yaml"
+	}
+	if variant == 0 && sc.MetaString("extra_file") == "" && rs.Chance(1, 40) {
+		// every document carries a value nested deeper than any fixed number of parent hops
+		sc.Files = GenMultiFiles(r.Fork("files-deep"), MultiOpts{MaxFiles: 3, MaxDocs: 2, Format: "yaml", PlainOnly: true})
+		depth := rs.Range(110, 170)
+		nest := strings.Repeat("{k: ", depth) + "leaf" + strings.Repeat("}", depth)
+		for i := range sc.Files {
+			for k := range sc.Files[i].Docs {
+				if !strings.HasSuffix(sc.Files[i].Docs[k], "\n") {
+					sc.Files[i].Docs[k] += "\n"
+				}
+				sc.Files[i].Docs[k] += "deep: " + nest + "\n"
+			}
+		}
+		e = Pick(rs, []Expr{
+			{S: ".deep | .. | select(kind == \"scalar\")", Family: "deep"},
+			{S: "[.deep | .. | select(kind == \"scalar\") | [., @DI@, @FI@]]", Family: "deep"},
+			{S: ".deep | [.. | select(kind == \"scalar\") | filename]", Family: "deep"},
+			{S: ".id, (.deep | .. | select(kind == \"scalar\"))", Family: "deep"},
+		})
+		e.Alts = []string{"."}
 	}
 	var argv []string
 	if variant == 3 && rs.Chance(1, 2) {
@@ -255,6 +300,52 @@ type c10part struct {
 }
 
 func (C10) Judge(c *Ctx, sc *Scenario) []Violation {
+	if sc.MetaString("variant") == "longstream" {
+		if !containsArg(sc.Argv, "long.yaml") || !containsArg(sc.Argv, sc.MetaString("expr")) || sc.File("long.yaml") == nil {
+			return nil // taken apart by the shrinker
+		}
+		out := c.Exec(sc)
+		var vs []Violation
+		add := func(detail, msg string) {
+			vs = append(vs, Violation{Prop: "C10", Oracle: "O10.4", Sig: "O10.4 provenance longstream " + detail, Class: "O10.4 longstream " + detail, Msg: msg + " | argv=" + strings.Join(sc.Argv, " ")})
+		}
+		if !c.Quiet {
+			c.Count("probe.stream_of_more_than_65536_documents")
+		}
+		if out.TimedOut || out.Exit != 0 {
+			add("run", fmt.Sprintf("a stream of `n: k` documents did not go through: exit %d timedout=%v %s", out.Exit, out.TimedOut, firstLines(out.Stderr, 2)))
+			return vs
+		}
+		n := 0
+		if v, ok := sc.Meta["docs"].(int); ok {
+			n = v
+		} else if v, ok := sc.Meta["docs"].(float64); ok {
+			n = int(v)
+		}
+		lines := strings.Split(strings.TrimSpace(string(out.Stdout)), "\n")
+		switch {
+		case strings.HasPrefix(sc.MetaString("expr"), "[.n"):
+			if len(lines) != n {
+				add("count", fmt.Sprintf("%d documents in, %d results out", n, len(lines)))
+				return vs
+			}
+			for k, l := range lines {
+				if l != fmt.Sprintf("[%d,%d]", k, k) {
+					add("index", fmt.Sprintf("document %d reports %s", k, l))
+					break
+				}
+			}
+		case strings.HasPrefix(sc.MetaString("expr"), "select(document_index == 3)"):
+			if len(lines) != 1 || lines[0] != "3" {
+				add("select", fmt.Sprintf("select(document_index == 3) over %d documents gives %q", n, clip(out.Stdout, 200)))
+			}
+		default:
+			if strings.TrimSpace(string(out.Stdout)) != "" {
+				add("mismatch", fmt.Sprintf("documents whose index is not their position: %q", clip(out.Stdout, 200)))
+			}
+		}
+		return vs
+	}
 	if sc.MetaString("variant") == "split" {
 		problems, nontrivial := JudgeSplit(c, sc)
 		if !c.Quiet {
